@@ -5,6 +5,7 @@ use std::io::{BufRead, Write};
 
 mod rng;
 mod lc;
+mod dp;
 
 pub use rng::Rng;
 
@@ -18,6 +19,7 @@ pub trait Area {
 fn area(name: &str) -> Box<dyn Area> {
     match name {
         "lc" => Box::new(lc::Lc),
+        "dp" => Box::new(dp::Dp),
         _ => {
             eprintln!("unknown area {}", name);
             std::process::exit(2)
